@@ -62,7 +62,8 @@ class Case:
         bits = int(re.sub(r'%N', '', f.get('tcm_invalid_count_bits', '32')))
         rf2 = 0 if f.get('be_refresh_after_clock') == 'false' else 1
         ca = 0 if f.get('be_format_catch_all') == 'false' else 1
-        out = ['be', self.dropping, self.capk, batch_of(C), ob, od, self.tinit, self.soft, self.hard, self.grace, bits, rf2, ca, CLOCK0]
+        rfirst = 0 if f.get('be_report_before_ctx_removal') == 'false' else 1
+        out = ['be', self.dropping, self.capk, batch_of(C), ob, od, self.tinit, self.soft, self.hard, self.grace, bits, rf2, ca, rfirst, CLOCK0]
         out.append(len(self.loggers))
         for lvl, ks in self.loggers: out += [lvl, len(ks)] + list(ks)
         out.append(len(self.sinks))
